@@ -620,9 +620,13 @@ def main():
     sys.exit(status)
 
 
+_replay_n = [0]
+
+
 def write_replay(pid, rp, kind):
     os.makedirs(V + '/replays', exist_ok=True)
-    path = '%s/replays/%s_%s_%d.json' % (V, pid, kind, int(time.time() * 1000) % 10**9)
+    _replay_n[0] += 1
+    path = '%s/replays/%s_%s_%d_%d.json' % (V, pid, kind, int(time.time()) % 10**8, _replay_n[0])
     with open(path, 'w') as f:
         json.dump(rp, f, indent=1)
     return path
